@@ -1,0 +1,16 @@
+//go:build verif
+
+package local
+
+import "context"
+
+// VerifYield, when set by the verification harness, is invoked at named
+// scheduling points between critical sections. No lock is held at any of
+// these points.
+var VerifYield func(ctx context.Context, point string)
+
+func verifYield(ctx context.Context, point string) {
+	if f := VerifYield; f != nil {
+		f(ctx, point)
+	}
+}
